@@ -337,6 +337,19 @@ func walkPathsInit(fn *ssa.Function, init map[ssa.Value]nilState, want func(ssa.
 						st = nsNil
 					}
 					q.facts[rx] = st
+					// the value tested is the result of a library helper: what this outcome says about its arguments
+					if hc, ok := rx.(*ssa.Call); ok && helperDepth < 2 {
+						if h := hc.Call.StaticCallee(); h != nil && !hc.Call.IsInvoke() && len(h.Blocks) > 0 && h.Signature.Results().Len() == 1 {
+							for pi, ps := range helperArgFacts(h, st) {
+								if pi < len(hc.Call.Args) {
+									a := q.resolve(hc.Call.Args[pi])
+									if _, known := q.facts[a]; !known {
+										q.facts[a] = ps
+									}
+								}
+							}
+						}
+					}
 					if k := fieldKeyOf(rx); k != "" {
 						if q.fieldFacts == nil {
 							q.fieldFacts = map[string]nilState{}
@@ -418,4 +431,51 @@ func fieldKeyOf(v ssa.Value) string {
 		return fmt.Sprintf("%p.%d", fa.X, fa.Field)
 	}
 	return ""
+}
+
+var helperArgFactsCache = map[*ssa.Function]map[nilState]map[int]nilState{}
+
+// helperArgFacts: what must hold of the helper's parameters (by index) on every path on which it returns a value in
+// the given nil-state (paths whose result is unknown count for both).
+func helperArgFacts(h *ssa.Function, want nilState) map[int]nilState {
+	if c, ok := helperArgFactsCache[h]; ok {
+		if r, ok := c[want]; ok {
+			return r
+		}
+	} else {
+		helperArgFactsCache[h] = map[nilState]map[int]nilState{}
+	}
+	helperDepth++
+	defer func() { helperDepth-- }()
+	var common map[int]nilState
+	first := true
+	ok := walkPaths(h, isReturn, func(p *pathState, in ssa.Instruction) {
+		r := in.(*ssa.Return)
+		if len(r.Results) != 1 {
+			return
+		}
+		if s := p.eval(r.Results[0]); s != want && s != nsUnknown {
+			return
+		}
+		here := map[int]nilState{}
+		for i, prm := range h.Params {
+			if s, ok := p.facts[prm]; ok && s != nsUnknown {
+				here[i] = s
+			}
+		}
+		if first {
+			common, first = here, false
+			return
+		}
+		for i, s := range common {
+			if here[i] != s {
+				delete(common, i)
+			}
+		}
+	})
+	if !ok || common == nil {
+		common = map[int]nilState{}
+	}
+	helperArgFactsCache[h][want] = common
+	return common
 }
